@@ -580,6 +580,14 @@ func (c18) Finalize(tier string, results []fw.Result, coverage map[string]any) s
 	if pairs == 0 {
 		return "the analyzer's member table is empty: nothing to check"
 	}
+	// the members the property text names must be in the table, otherwise the matrix is vacuous
+	// exactly where the property speaks
+	for _, a := range [][2]string{{"str", "split"}, {"[int]", "push"}, {"range", "rev"}, {"?int", "unwrap_or"}, {"{?}", "get"}} {
+		in, _ := instByName(a[0])
+		if _, ok := memberTable(in.T)[a[1]]; !ok {
+			return fmt.Sprintf("the analyzer's member table no longer lists %s.%s, which the property names: the matrix would be vacuous there", a[0], a[1])
+		}
+	}
 	if len(missing) > 0 {
 		return fmt.Sprintf("%d (backend,type,member) pairs of the analyzer's table were never exercised, e.g. %s", len(missing), strings.Join(missing[:min(len(missing), 8)], " "))
 	}
